@@ -35,7 +35,7 @@ from vlib import Ctx, run_tlc, build_harness, run_bin, parse_jsonl, SPEC
 D = os.path.join(SPEC, "server")
 HIST = ["ForbiddenTrustsXff", "XffUntrimmed", "MappedPeerUnmatched"]
 MUTANTS = ["CacheBeforeBlacklist", "ProxyUnchecked", "RedirectUnchecked", "OnlyProxiesChecked", "NoConnCondition",
-           "IgnoresXff", "BlockSkipsHandlerCheck", "MappedListEntryUnmatched"]
+           "IgnoresXff", "BlockSkipsHandlerCheck", "MappedListEntryUnmatched", "XffNameCaseSensitive"]
 WITNESSES = ["NoCachedAnswer", "NoDrop", "NoForwarded403", "NoLenientCase"]
 ACTIONS = ["Cli_Connect", "Srv_VerifyConnection", "Cli_SeesDrop", "Cli_Request", "Srv_Parse", "Srv_Route",
            "Srv_File_Blacklist", "Srv_Dir_Blacklist", "Srv_Redirect_Blacklist", "Srv_Proxy_Blacklist",
@@ -109,11 +109,15 @@ def replay_vectors(ctx, blbin, server, lines, work, threads, label):
     if p.returncode != 0 or not res:
         raise vlib.ToolError("blacklist replay (%s) failed rc=%s: %s" % (label, p.returncode, p.stderr[-2000:]))
     s = res[0]
-    if s["errors"]:
+    mism = [x["mismatch"] for x in out if "mismatch" in x]
+    if s["errors"] and not mism:
+        # (with mismatches in hand the run is reported as what it is - a violation - not as a tool error)
         raise vlib.ToolError("blacklist replay (%s): %s" % (label, s["errors"][:3]))
+    if s["errors"]:
+        ctx.assumptions.append("note: replay %s also had harness errors: %s" % (label, s["errors"][:2]))
     if s["lines"] != len(lines):
         raise vlib.ToolError("harness consumed %d of %d vector lines" % (s["lines"], len(lines)))
-    return s, [x["mismatch"] for x in out if "mismatch" in x]
+    return s, mism
 
 
 def vector_case(m):
@@ -180,7 +184,9 @@ def trace_case(rec_entry):
             "mode": r["mode"], "list": r["list"], "cache": r["cache"], "peer": r["peer"], "p": r["present"], "es": es,
             "exp": rec_entry.get("allowed", []), "got": r["res"], "rt": r["rt"], "warm": r.get("fromCache"),
             "xff_header": xff_text({"p": r["present"], "es": es}), "model": "", "dev": {d: r["res"] for d in (rec_entry.get("dev") or [])},
-            "detail": "trace line %s, request %s on its connection, uri %s" % (rec_entry.get("line"), r["n"], r["uri"])}
+            "detail": "trace line %s, request %s on its connection, uri %s%s" % (
+                rec_entry.get("line"), r["n"], r["uri"],
+                ", second X-Forwarded-For line %r" % xff_text({"p": True, "es": r["es2"]}) if r.get("present2") else "")}
 
 
 def validate_trace(ctx, path, label, timeout=1500):
@@ -244,7 +250,7 @@ def check(ctx, thorough, blbin, server, work):
     main_cfg = "MC_Blacklist_thorough.cfg" if thorough else "MC_Blacklist_quick.cfg"
     # quick: the three historical deviations and four of the mutants; thorough: all of them
     devs = HIST + (MUTANTS if thorough else ["CacheBeforeBlacklist", "ProxyUnchecked", "NoConnCondition", "IgnoresXff",
-                                               "MappedListEntryUnmatched"])
+                                               "MappedListEntryUnmatched", "XffNameCaseSensitive"])
     wits = WITNESSES if thorough else ["NoCachedAnswer", "NoForwarded403"]
     jobs = {}
     with concurrent.futures.ThreadPoolExecutor(max_workers=4) as ex:
@@ -258,6 +264,7 @@ def check(ctx, thorough, blbin, server, work):
                                          work_id="c19", heap="1g")
         jobs["conc"] = ex.submit(tlc, "MC_Blacklist.tla", "MC_Blacklist_conc.cfg" if thorough else "MC_Blacklist_conc_quick.cfg", D,
                                  workers=3, coverage=True, timeout=1800, work_id="c19", heap="4g")
+        jobs["lines"] = ex.submit(tlc, "MC_Blacklist.tla", "MC_Blacklist_lines.cfg", D, workers=1, timeout=600, work_id="c19", heap="1g")
         if not thorough:
             jobs["forms"] = ex.submit(tlc, "MC_Blacklist.tla", "MC_Blacklist_forms.cfg", D, workers=2, coverage=True, timeout=900,
                                       work_id="c19", heap="2g")
@@ -272,6 +279,9 @@ def check(ctx, thorough, blbin, server, work):
     ctx.add_tlc("decision-point model, Dev={}, one connection (%s)" % main_cfg, r)
     ctx.require_tlc_ok("MC_Blacklist", r)
     require_taken("MC_Blacklist", r, ACTIONS)
+    r = res["lines"]
+    ctx.add_tlc("several X-Forwarded-For lines: a listed peer has one allowed outcome under every reading; the code's reading is an accepted one", r)
+    ctx.require_tlc_ok("MC_Blacklist_lines", r)
     if not thorough:
         r = res["forms"]
         ctx.add_tlc("decision-point model, Dev={}, single- and dual-stack listener x plain and IPv4-mapped list entries (MC_Blacklist_forms.cfg)", r)
@@ -319,7 +329,8 @@ def check(ctx, thorough, blbin, server, work):
             raise vlib.ToolError("TLC generated no vectors")
         s, mm = replay_vectors(ctx, blbin, server, lines, work, 8, gcfg)
         nrows = sum(len(x["rows"]) for x in lines)
-        if s["rows"] + s["rows_dual_stack"] + s["skipped_rows_no_ipv6"] + s["skipped_rows_no_dual_stack"] != nrows:
+        if not (s["instances_aborted_after_hangs"] or s["errors"]) and \
+                s["rows"] + s["rows_dual_stack"] + s["skipped_rows_no_ipv6"] + s["skipped_rows_no_dual_stack"] != nrows:
             raise vlib.ToolError("harness evaluated %d of %d rows" % (s["rows"], nrows))
         if s["upstream_hits"] != s["upstream_expected"]:
             ctx.assumptions.append("note: the scripted upstream was contacted %d times for %d proxied answers" % (s["upstream_hits"], s["upstream_expected"]))
@@ -393,6 +404,10 @@ def check(ctx, thorough, blbin, server, work):
         "Decide(mode, list, peer, xff) in Blacklist.tla is the property's definition; origin = last X-Forwarded-For entry that is an IP address",
         "peer unlisted, origin unlisted, an intermediate X-Forwarded-For entry listed: the statement is silent, 403 and content both accepted",
         "only GET requests for routed targets; OPTIONS (answered by the core) and WebSocket upgrades are outside the four route types",
-        "projection: result classes from status + content markers; IPv6 addresses are also written in expanded/upper-case forms in the list file and header",
+        "projection: result classes from status + content markers; IPv6 addresses are written in 5-7 spellings (expanded, upper/mixed case, leading zeros, "
+        "`::` elsewhere, dotted tail) in the list file and header; the field name in 6 cases, 4 name/value separators, blanks and tabs around entries, "
+        "0..90 other fields around it; list files padded / reordered / with duplicates / CRLF / without final newline; `mode` omitted for the default",
+        "several X-Forwarded-For lines in one request (random sessions): each line alone and the joined list are accepted readings; a listed peer is strict",
+        "a connection that stays silent and open for 5 s and again 25 s is the observation Other:hang (a mismatch); only a failed connect is a tool error",
     ]
     return ctx.finish()
